@@ -243,6 +243,8 @@ def gen_calls(rng, tier):
         cases.append({"sig": sig, "how": how, "pos": pos, "kw": kw, "opts": gen_opts(rng, sig),
                       "body": gen_body(rng, sig, pos),
                       "nested": rng.choice([None, None, None, 0, 1, 2])})
+        if how == "function" and rng.random() < 0.25:
+            cases[-1]["stacked"] = True
     return cases
 
 
@@ -275,6 +277,11 @@ def source(case):
     else:
         ret = "return _BODY()"
     fn = ["@_dec", "def f(%s):" % param_list(sig), '    "doc of f"', "    _REC.append(%s)" % rec, "    " + ret]
+    if how == "function" and case.get("stacked"):
+        # log_call stacked on another functools.wraps-based decorator: a pass-through wrapper that notes how it
+        # was called (which arguments positionally, which by keyword) and hands them on unchanged
+        return "\n".join(fn[1:] + ["_inner = f", "@_dec", "@_wraps(_inner)", "def f(*args, **kwargs):",
+                                   "    _HOW.append([args, dict(kwargs)])", "    return _inner(*args, **kwargs)"]) + "\n"
     if how == "function":
         return "\n".join(fn) + "\n"
     deco = {"method": [], "classmethod": ["@classmethod"], "staticmethod": ["@staticmethod"]}[how]
@@ -357,7 +364,9 @@ def impl_calls(case):
         keep["wrapped"] = w
         return w
 
-    ns = {"__name__": MODULE, "_dec": _dec, "_D": D, "_REC": REC, "_BODY": _BODY}
+    import functools as _functools
+    HOW = []
+    ns = {"__name__": MODULE, "_dec": _dec, "_D": D, "_REC": REC, "_BODY": _BODY, "_HOW": HOW, "_wraps": _functools.wraps}
     obs = {}
     try:
         exec(source(case), ns)
@@ -394,6 +403,7 @@ def impl_calls(case):
 
     def run(f):
         del REC[:]
+        del HOW[:]
         try:
             r = f(*pos, **kw)
             out = ["return", canon(r)]
@@ -406,7 +416,8 @@ def impl_calls(case):
                 out = ["KeyError", e.args[0] if e.args and isinstance(e.args[0], str) else "?"]
             else:
                 out = ["other", "%s: %s" % (type(e).__name__, e)]
-        return {"out": out, "rec": [sorted([[k, canon(v)] for k, v in r.items()]) for r in REC]}
+        return {"out": out, "rec": [sorted([[k, canon(v)] for k, v in r.items()]) for r in REC],
+                "how": [[canon(a), canon(k)] for a, k in HOW]}
 
     obs["plain"] = run(plain_f)
     obs["plain_logged"] = len(msgs)
@@ -608,6 +619,9 @@ def oracle_calls(case, obs):
     valid = plain["out"][0] != "TypeError"
     if not valid:
         return None          # the text asks nothing about what is logged for an invalid argument list
+    if dec.get("how") != plain.get("how"):
+        return ("the wrapped callable was not invoked with the caller's arguments: undecorated saw (args, kwargs) = %r, "
+                "decorated saw %r" % (plain.get("how"), dec.get("how")))
     # -- exactly one action, faithful start message, truthful end message
     msgs = [dict((k, v) for k, v in mm) for mm in obs["msgs"]]
     if len(msgs) != 2:
@@ -699,6 +713,8 @@ def ref_valid(case):
 def describe_calls(case):
     d = [case["how"], "valid-call" if ref_valid(case) else "invalid-call", "nested" if case["nested"] is not None else "toplevel", "body:" + case["body"][0]]
     d += sorted({"kind:" + p[1] for p in case["sig"]})
+    if case.get("stacked"):
+        d.append("stacked-on-wraps-decorator")
     if any(p[2] is not None for p in case["sig"]):
         d.append("has-default")
     special = {"logger", "action_type", "_serializers", "self", "fields", "task_id", "result", "exception", "reason"}
